@@ -2,6 +2,7 @@ SPECIFICATION Spec
 CONSTANTS
   KeyOrder <- KO2
   Ctxs <- OneCtx
+  Flows <- SingleFlows
   Calls <- MakeCalls
 INVARIANT GetIsRef
 INVARIANT ContainsIsRef
@@ -19,4 +20,5 @@ INVARIANT UpdateMissing
 INVARIANT DeleteExact
 INVARIANT FuwExact
 INVARIANT OnlyDocumentedExceptions
+PROPERTY ElementStateless
 CHECK_DEADLOCK FALSE
